@@ -36,39 +36,26 @@ fn wrap(ctx: &str, e: &str, uniq: usize) -> String {
         "begin" => format!("(begin 'x 'y {})", e),
         "lambda-app" => format!("((lambda (t{u}) {e}) 1)", u = uniq, e = e),
         "let-internal-define" => format!("(let () (define d{u} 1) {e})", u = uniq, e = e),
-        // the following rewrite the call itself; `e` is always of the form (proc arg ...)
-        "apply" => {
-            let inner = &e[1..e.len() - 1];
-            let mut parts = inner.splitn(2, ' ');
-            let proc = parts.next().unwrap_or("");
-            let args = parts.next().unwrap_or("");
-            format!("(apply {} (list {}))", proc, args)
-        }
+        "call/cc" => format!("(call/cc (lambda (k{u}) {e}))", u = uniq, e = e),
+        "call/cc-k" => format!("(call/cc (lambda (k{u}) (if (= 1 2) (k{u} 'no) {e})))", u = uniq, e = e),
+        _ => e.to_string(),
+    }
+}
+
+/// contexts that rewrite the call itself
+fn rewrite_call(ctx: &str, proc: &str, args: &[String]) -> String {
+    match ctx {
+        "apply" => format!("(apply {} (list {}))", proc, args.join(" ")),
         "apply-spread" => {
-            let inner = &e[1..e.len() - 1];
-            let mut parts = inner.splitn(2, ' ');
-            let proc = parts.next().unwrap_or("");
-            let args = parts.next().unwrap_or("");
             if args.is_empty() {
                 format!("(apply {} '())", proc)
             } else {
-                let mut a = args.splitn(2, ' ');
-                let first = a.next().unwrap_or("");
-                let rest = a.next().unwrap_or("");
-                format!("(apply {} {} (list {}))", proc, first, rest)
+                format!("(apply {} {} (list {}))", proc, args[0], args[1..].join(" "))
             }
         }
-        "call/cc" => format!("(call/cc (lambda (k{u}) {e}))", u = uniq, e = e),
-        "call/cc-k" => format!("(call/cc (lambda (k{u}) (if (= 1 2) (k{u} 'no) {e})))", u = uniq, e = e),
-        "eval" => {
-            // arguments are small integers: their values are spliced into the evaluated datum
-            let inner = &e[1..e.len() - 1];
-            let mut parts = inner.splitn(2, ' ');
-            let proc = parts.next().unwrap_or("");
-            let args = parts.next().unwrap_or("");
-            format!("(eval (list '{} {}))", proc, args)
-        }
-        _ => e.to_string(),
+        // the argument values are spliced into the evaluated datum
+        "eval" => format!("(eval (list '{} {}))", proc, args.join(" ")),
+        _ => unreachable!(),
     }
 }
 
@@ -85,20 +72,30 @@ pub struct Family {
 
 impl Family {
     pub fn render(&self) -> Vec<String> {
-        let mut forms = vec!["(define %i 0)".to_string(), "(define %acc 0)".to_string()];
+        // the loop step is a procedure so that the tail call sits directly in the body of its
+        // procedure (a `begin` would put it into a zero-argument lambda and every call would take the
+        // different-argument-count path of the frame rewrite)
+        let mut forms = vec![
+            "(define %i 0)".to_string(),
+            "(define %acc 0)".to_string(),
+            "(define %bad 0)".to_string(),
+            "(define (%step) (set! %i (- %i 1)) (set! %acc (+ %acc 1)) #t)".to_string(),
+        ];
         let np = self.procs.len();
         let mut uniq = 0;
         for (pi, (arity, rest, chain)) in self.procs.iter().enumerate() {
             let (n_arity, n_rest, _) = &self.procs[(pi + 1) % np];
             // call of the next procedure with as many integer arguments as it needs (+2 if variadic)
             let argc = n_arity + if *n_rest { 2 } else { 0 };
-            let args: Vec<String> = (0..argc).map(|a| format!("{}", a + 1)).collect();
-            let mut call = if args.is_empty() { format!("(p{})", (pi + 1) % np) } else { format!("(p{} {})", (pi + 1) % np, args.join(" ")) };
+            // arguments depend on the iteration so that a frame rewrite that loses or misplaces
+            // one is seen by the callee (which compares them with the counter)
+            let args: Vec<String> = (0..argc).map(|a| format!("(+ %i {})", a + 1)).collect();
+            let proc = format!("p{}", (pi + 1) % np);
+            let mut call = if args.is_empty() { format!("({})", proc) } else { format!("({} {})", proc, args.join(" ")) };
             // a context that rewrites the call itself (apply / eval) is applied first (innermost,
             // at most one); the others wrap the result, innermost first
             if let Some(ctx) = chain.iter().find(|c| rewrites_call(c)) {
-                uniq += 1;
-                call = wrap(ctx, &call, uniq);
+                call = rewrite_call(ctx, &proc, &args);
             }
             for ctx in chain.iter().rev().filter(|c| !rewrites_call(c)) {
                 uniq += 1;
@@ -114,10 +111,21 @@ impl Family {
             } else {
                 format!("({})", params.join(" "))
             };
+            let mut checks: Vec<String> = (0..*arity).map(|a| format!("(= a{} (+ %i {}))", a, a + 1)).collect();
+            if *rest {
+                checks.push(format!("(if (pair? r) (= (car r) (+ %i {})) #t)", arity + 1));
+                checks.push("(<= (length r) 2)".to_string());
+            }
+            let verify = if checks.is_empty() {
+                "'ok".to_string()
+            } else {
+                format!("(if (and {}) 'ok (set! %bad (+ %bad 1)))", checks.join(" "))
+            };
             forms.push(format!(
-                "(define p{pi} (lambda {formals} (if (= %i 0) (list 'done %acc) (begin (set! %i (- %i 1)) (set! %acc (+ %acc 1)) {call}))))",
+                "(define p{pi} (lambda {formals} {verify} (if (= %i 0) (list 'done %acc %bad) (if (%step) {call} 'never))))",
                 pi = pi,
                 formals = formals,
+                verify = verify,
                 call = call
             ));
         }
@@ -127,7 +135,7 @@ impl Family {
     pub fn start_call(&self) -> String {
         let (arity, rest, _) = &self.procs[0];
         let argc = arity + if *rest { 1 } else { 0 };
-        let args: Vec<String> = (0..argc).map(|a| format!("{}", a + 7)).collect();
+        let args: Vec<String> = (0..argc).map(|a| format!("(+ %i {})", a + 1)).collect();
         if args.is_empty() {
             "(p0)".into()
         } else {
@@ -187,16 +195,17 @@ pub fn evaluate(tc: &TailCase) -> Result<Option<(String, String)>, String> {
     for n in &tc.ns {
         sim.eval_form(&format!("(set! %i {})", n));
         sim.eval_form("(set! %acc 0)");
+        sim.eval_form("(set! %bad 0)");
         sim.vm.verif_state_mut().max_sp = 0;
         let o = sim.eval_form(&tc.family.start_call());
-        let expected = Dv::list(vec![Dv::Sym("done".into()), Dv::Int(*n as i128)]);
+        let expected = Dv::list(vec![Dv::Sym("done".into()), Dv::Int(*n as i128), Dv::Int(0)]);
         match &o.outcome {
             Outcome::Value(v) if *v == expected => {}
             Outcome::Diverged => return Err("instruction cap".into()),
             other => {
                 return Ok(Some((
                     format!("C04 wrong-value contexts={}", context_sig(&tc.family)),
-                    format!("loop of n={} tail calls returned {} instead of (done {})\n{}", n, other.brief(), n, tc.family.render().join("\n")),
+                    format!("loop of n={} tail calls returned {} instead of (done {} 0) (third element: number of calls that received wrong arguments)\n{}", n, other.brief(), n, tc.family.render().join("\n")),
                 )))
             }
         }
